@@ -205,12 +205,31 @@ func (q *workQueue) take() (int, bool) {
 // (or when VERIF_SCRATCH=tmp) the usual t.TempDir() is used.
 func scratchDir(t *testing.T) string {
 	if os.Getenv("VERIF_SCRATCH") != "tmp" {
+		removeStaleScratch()
 		if d, err := os.MkdirTemp("/dev/shm", "verif-session-"); err == nil {
 			t.Cleanup(func() { os.RemoveAll(d) })
 			return d
 		}
 	}
 	return t.TempDir()
+}
+
+// removeStaleScratch deletes scratch directories that a killed run (timeout,
+// SIGKILL) left behind in /dev/shm; anything older than three hours cannot
+// belong to a live check.
+func removeStaleScratch() {
+	entries, err := os.ReadDir("/dev/shm")
+	if err != nil {
+		return
+	}
+	for _, e := range entries {
+		if !strings.HasPrefix(e.Name(), "verif-session-") {
+			continue
+		}
+		if info, err := e.Info(); err == nil && time.Since(info.ModTime()) > 3*time.Hour {
+			os.RemoveAll(filepath.Join("/dev/shm", e.Name()))
+		}
+	}
 }
 
 // tuneGC trades memory for time: every core.Scan allocates two 1024-entry
